@@ -1,6 +1,7 @@
 package sim
 
 import (
+	"time"
 	"bytes"
 	"context"
 	"errors"
@@ -259,6 +260,11 @@ type C19Prog struct {
 	Marks []int
 	FLine map[string]int
 	Funcs []string
+	// Tail: marked lines executed by a goroutine after it has released main
+	// (their order relative to main's lines depends on the schedule).
+	Tail       map[int]bool
+	WorkerLine int // first marked line of the goroutine's function
+	TailLast   int // last marked line of the tail
 }
 
 // GenC19 draws a sequential marker program: every statement is written as
@@ -313,6 +319,22 @@ func GenC19(tape *Tape) *C19Prog {
 	g.raw("")
 	// a goroutine whose function is left by a panic which its own deferred
 	// function recovers; main waits for it, so the execution stays sequential
+	// in some programs the goroutine goes on after it has released main: it calls
+	// one more function while main continues and possibly returns (the session
+	// ends only when every goroutine has ended; breakpoints hit by that tail
+	// must be reported like any other)
+	hasTail := tape.Choose(3) == 2
+	tail := map[int]bool{}
+	tailLast := 0
+	if hasTail {
+		g.raw("func tail(r int) int {")
+		g.fline["tail"] = g.stmt(1, "y := r * 2")
+		tail[g.fline["tail"]] = true
+		tailLast = g.stmt(1, "return y + 1")
+		tail[tailLast] = true
+		g.raw("}")
+		g.raw("")
+	}
 	g.raw("func worker(x int, ch, start chan int) {")
 	g.raw("\t<-start")
 	g.raw("\tr := x + 1")
@@ -321,6 +343,9 @@ func GenC19(tape *Tape) *C19Prog {
 	g.stmt(3, "r = x + 7")
 	g.raw("\t\t}")
 	g.raw("\t\tch <- r")
+	if hasTail {
+		tail[g.stmt(2, "tail(r)")] = true
+	}
 	g.raw("\t}()")
 	g.stmt(1, "if x%2 == 0 {")
 	g.stmt(2, "panic(\"w\")")
@@ -388,7 +413,10 @@ func GenC19(tape *Tape) *C19Prog {
 	if hasLong {
 		funcs = append(funcs, "long")
 	}
-	return &C19Prog{Src: g.b.String(), Marks: g.marks, FLine: g.fline, Funcs: funcs}
+	if hasTail {
+		funcs = append(funcs, "tail")
+	}
+	return &C19Prog{Src: g.b.String(), Marks: g.marks, FLine: g.fline, Funcs: funcs, Tail: tail, WorkerLine: g.fline["worker"], TailLast: tailLast}
 }
 
 type c19Result struct {
@@ -397,6 +425,7 @@ type c19Result struct {
 	resStr string
 	errStr string
 	ok     bool
+	workers int // goroutines entered (programs with a tail)
 }
 
 func errString(err error) string {
@@ -442,7 +471,7 @@ func c19Interp(stdout *bytes.Buffer) *interp.Interpreter {
 }
 
 // c19Plain is the reference: plain Execute of the program on a fresh interpreter.
-func c19Plain(src string) (res c19Result) {
+func c19Plain(src string, gp *C19Prog) (res c19Result) {
 	var out bytes.Buffer
 	sink := host.NewSink(20000, nil)
 	host.Cur.Store(sink)
@@ -464,9 +493,40 @@ func c19Plain(src string) (res c19Result) {
 		res.ok = true
 	}()
 	res.out = out.String()
+	if gp != nil && len(gp.Tail) > 0 {
+		// goroutines may still be executing their tail: Execute does not wait for
+		// them. Every goroutine entered executes the whole tail once.
+		deadline := time.Now().Add(10 * time.Second)
+		for {
+			entered, done := 0, 0
+			for _, e := range sink.Events() {
+				if e.Kind == host.KTick && e.Tag == gp.WorkerLine {
+					entered++
+				}
+				if e.Kind == host.KTick && e.Tag == gp.TailLast {
+					done++
+				}
+			}
+			if done >= entered {
+				break
+			}
+			if time.Now().After(deadline) {
+				res.ok = false
+				res.errStr = "a goroutine of the reference run did not finish its tail"
+				return res
+			}
+			time.Sleep(200 * time.Microsecond)
+		}
+	}
 	for _, e := range sink.Events() {
 		if e.Kind == host.KTick {
+			if gp != nil && gp.Tail[e.Tag] {
+				continue // schedule-dependent position: judged by count
+			}
 			res.ticks = append(res.ticks, e.Tag)
+			if gp != nil && e.Tag == gp.WorkerLine {
+				res.workers++
+			}
 		}
 	}
 	if sink.Overflow() {
@@ -534,7 +594,7 @@ func RunC19(t *testing.T, tape *Tape) *Outcome {
 		prog = GenC19(tape)
 		src, pname = prog.Src, "generated"
 	}
-	ref := c19Plain(src)
+	ref := c19Plain(src, prog)
 	if !ref.ok {
 		o.Inconclusive = "reference run unusable: " + ref.errStr
 		if useCorpus {
@@ -596,7 +656,7 @@ func RunC19(t *testing.T, tape *Tape) *Outcome {
 	var lineBP2 []int
 	var funcBP2 []string
 	switchAt := 0
-	if prog != nil && len(lineBP) > 0 && tape.Choose(3) == 2 {
+	if prog != nil && len(prog.Tail) == 0 && len(lineBP) > 0 && tape.Choose(3) == 2 {
 		switchAt = 1 + tape.Choose(4)
 		funcBP2 = append(funcBP2, prog.Funcs[tape.Choose(len(prog.Funcs))])
 		for _, l := range lines {
@@ -932,15 +992,25 @@ func RunC19(t *testing.T, tape *Tape) *Outcome {
 		if ticksAtSwitch >= 0 {
 			o.FaultFired["breakpoint-set-replaced-mid-session"]++
 		}
+		tailGot := map[int]int{}
 		for _, e := range events {
 			if e.reason == interp.DebugBreak {
+				if prog.Tail[e.line] {
+					tailGot[e.line]++
+					continue
+				}
 				got = append(got, e.line)
 			}
 		}
 		// the marker trace of the debugged run itself must equal the reference
 		var ticks []int
+		tailTicks := map[int]int{}
 		for _, e := range sink.Events() {
 			if e.Kind == host.KTick {
+				if prog.Tail[e.Tag] {
+					tailTicks[e.Tag]++
+					continue
+				}
 				ticks = append(ticks, e.Tag)
 			}
 		}
@@ -948,6 +1018,27 @@ func RunC19(t *testing.T, tape *Tape) *Outcome {
 			o.addV("C19", "trace", "marker-trace-differs bp="+bpk, "%s: statements executed under the debugger %v, plainly %v", o.Desc, clipInts(ticks), clipInts(ref.ticks))
 		} else if fmt.Sprint(got) != fmt.Sprint(want) {
 			o.addV("C19", "breakpoints", "breakpoint-report-mismatch bp="+bpk+" "+bpDiff(got, want), "%s: break events at lines %v, executed breakpoint lines %v", o.Desc, clipInts(got), clipInts(want))
+		} else if len(prog.Tail) > 0 {
+			// the part of each goroutine which runs concurrently with main: the
+			// session ends only when it is over, every line of it runs once per
+			// goroutine, and its breakpoints are reported
+			for l := range prog.Tail {
+				if tailTicks[l] != ref.workers {
+					o.addV("C19", "trace", "goroutine-tail-trace-differs bp="+bpk, "%s: line %d of the goroutines' tail executed %d times before the terminate event, %d goroutines were started", o.Desc, l, tailTicks[l], ref.workers)
+					break
+				}
+				wantN := 0
+				if validLines[l] || fline[l] {
+					wantN = ref.workers
+				}
+				if tailGot[l] != wantN {
+					o.addV("C19", "breakpoints", "breakpoint-report-mismatch bp="+bpk+" goroutine-tail", "%s: %d break events at line %d of the goroutines' tail, %d expected", o.Desc, tailGot[l], l, wantN)
+					break
+				}
+			}
+			if ref.workers > 0 {
+				o.FaultFired["goroutine-tails-run-concurrently-with-main"] += ref.workers
+			}
 		}
 		o.FaultFired["breakpoints-hit"] += len(got)
 	}
